@@ -562,14 +562,17 @@ def Hamt.ofList (h : Hasher K) (t : List (K × V)) : GoE (Hamt K V) :=
     requires what a value model gives for free: the set handed out is the state at `Build()`. -/
 structure SetBuilder (K : Type) where
   m : Hamt K Bool
+  /-- a Set built from `m` has been handed out: `m` must not be updated in place any more -/
+  shared : Bool := false
 
-def SetBuilder.new : SetBuilder K := ⟨Hamt.empty⟩
+def SetBuilder.new : SetBuilder K := ⟨Hamt.empty, false⟩
 
-/-- `(*setBuilder).Add`: `r.m.set(v, true, true)` (in place) -/
+/-- `(*setBuilder).Add`: `r.m = r.m.set(v, true, !r.shared)` (in place until the first `Build`) -/
 def SetBuilder.add (h : Hasher K) (b : SetBuilder K) (v : K) : GoE (SetBuilder K) := do
-  pure ⟨← b.m.set h v true true⟩
+  pure { b with m := ← b.m.set h v true (!b.shared) }
 
-def SetBuilder.build (b : SetBuilder K) : Hamt K Bool := b.m
+/-- `(*setBuilder).Build`: marks the trie shared and hands it out -/
+def SetBuilder.build (b : SetBuilder K) : Hamt K Bool × SetBuilder K := (b.m, { b with shared := true })
 
 -- fp.Map / fp.Set wrappers (map.go, set.go) -------------------------------------------------------
 
